@@ -60,7 +60,12 @@ def string_settable(n):
         return len(n.args) == 1 and n.args[0].kind == 'arg'
     if n.kind in ('env', 'math', 'group'):
         vis = [c for c in n.body if not (c.kind == 'text' and c.text.isspace())]
-        return not n.args and len(vis) == 1 and vis[0].kind == 'text'
+        # arguments that contribute nothing visible (`\begin{minipage}{}`,
+        # `\begin{figure}[ ]`) leave the environment text-only
+        hollow = all(a.kind == 'arg' and not [c for c in a.body
+                                              if not (c.kind == 'text' and c.text.isspace())]
+                     for a in n.args)
+        return hollow and len(vis) == 1 and vis[0].kind == 'text'
     return False
 
 
@@ -68,7 +73,9 @@ def available_ops(m, variety=0):
     """every valid (op, target, index) in this model state (new material is
     chosen by `variety`, uids are assigned at execution)"""
     specs = [[['s', 'S']], [['n', 'cmd']], [['n', 'env'], ['s', ' ']],
-             [['n', 'cmdopt']], [['s', 'T'], ['n', 'group']], [['n', 'math']]]
+             [['n', 'cmdopt']], [['s', 'T'], ['n', 'group']], [['n', 'math']],
+             # the empty string is a legitimate (if useless) piece of text
+             [['s', ''], ['n', 'cmd']], [['s', 'U'], ['s', ''], ['s', 'V']]]
 
     def spec(i):
         return specs[(i + variety) % len(specs)]
